@@ -145,7 +145,8 @@ def get_engine(name):
 
 
 def _work(engine_name, verif_seed, chunk):
-    faulthandler.dump_traceback_later(900, exit=True)
+    faulthandler.enable()                      # a crash of native code (FITPACK, ...) leaves a Python traceback
+    faulthandler.dump_traceback_later(1800, exit=True)
     try:
         eng = get_engine(engine_name)
         out = UnitOutcome()
